@@ -379,6 +379,15 @@ impl SimListener {
         }
     }
 
+    /// The next accept fails.
+    pub fn fail(&self) {
+        let mut l = self.0.lock().unwrap();
+        l.queue.push_back(Err(io::Error::new(io::ErrorKind::Other, "simulated accept error")));
+        if let Some(w) = l.waker.take() {
+            w.wake();
+        }
+    }
+
     pub fn close(&self) {
         let mut l = self.0.lock().unwrap();
         l.closed = true;
